@@ -509,9 +509,8 @@ def gen_run(rng, tier):
     if sc.get("dynamic"):
         for c in cfgs:
             c["filter"] = rng.choice(["prec", "accept", "none"])
-    if reuse:
-        for c in cfgs:
-            c["ctr"] = rng.random() < 0.5
+    for c in cfgs:
+        c["ctr"] = rng.random() < (0.5 if reuse else 0.2)
     jobs = []
     mt = pool.MAX_TOKENS.get(sc["family"], 40)
     for _ in range(PARSES_PER_RUN):
